@@ -166,6 +166,47 @@ var c03Cases = []c03Case{
 	{"{\n  @k: 1,\n  \"b\": \"s\" // {optional: true}\n}", nil, tObj{keys: []string{"b"}, vals: []ty{tStr{0}}, opt: []bool{true}, ks: &tStr{2}, ksv: tInt{}}, []string{"b", "kk", "z"}},
 }
 
+func dInt(s string) *gen.Doc { return &gen.Doc{Kind: gen.KInt, Lit: []byte(s)} }
+func dStr(s string) *gen.Doc { return &gen.Doc{Kind: gen.KStr, Lit: []byte(`"` + s + `"`)} }
+func dObj(kv ...interface{}) *gen.Doc {
+	d := &gen.Doc{Kind: gen.KObj}
+	for i := 0; i+1 < len(kv); i += 2 {
+		d.Keys = append(d.Keys, []byte(kv[i].(string)))
+		d.Kids = append(d.Kids, kv[i+1].(*gen.Doc))
+	}
+	return d
+}
+
+// c03Extra: hand-built documents (deeper nesting, particular key orders) tried for a case
+// in addition to the generated ones; keyed by the case's root text.
+func c03Extra(root string) []*gen.Doc {
+	switch root {
+	case "{\n  \"c\": @C,\n  \"p\": @P\n}":
+		return []*gen.Doc{
+			dObj("c", dObj("a", dInt("1"), "b", dInt("2")), "p", dObj("a", dInt("1"))),
+			dObj("p", dObj("a", dInt("1")), "c", dObj("b", dInt("2"), "a", dInt("1"), "v", dInt("3"))),
+			dObj("c", dObj("a", dInt("1")), "p", dObj("a", dInt("1"))),
+			dObj("c", dObj("a", dInt("1"), "b", dInt("2")), "p", dObj("a", dInt("1"), "b", dInt("2"))),
+			dObj("c", dObj("a", dInt("1"), "b", dInt("2")), "p", dObj()),
+		}
+	case "{\n  @ka: 1,\n  @kb: \"s\"\n}":
+		return []*gen.Doc{
+			dObj("b1", dStr("s"), "a1", dInt("1")),
+			dObj("a1", dInt("1"), "b1", dStr("s")),
+			dObj("b7", dStr("s"), "b8", dStr("t"), "a2", dInt("1")),
+			dObj("b1", dInt("1"), "a1", dStr("s")),
+			dObj("b1", dStr("s")),
+		}
+	case "{\n  \"a\": @i | @s,\n  \"b\": @o // {optional: true}\n}":
+		return []*gen.Doc{
+			dObj("b", dObj("p", dInt("1")), "a", dStr("xy")),
+			dObj("a", dInt("3"), "b", dObj("p", dStr("x"))),
+			dObj("a", dInt("3"), "b", dObj()),
+		}
+	}
+	return nil
+}
+
 func c03Scalar() *gen.Doc {
 	switch v.Choose(0, 3) {
 	case 0:
@@ -250,7 +291,13 @@ func ZZC03() {
 	if cerr != nil {
 		return
 	}
-	d := c03Doc(c.keys, 1)
+	var d *gen.Doc
+	if ex := c03Extra(c.root); len(ex) > 0 && v.Choose(0, 1) == 1 {
+		d = ex[v.Choose(0, len(ex)-1)]
+		v.Reach("C03/hand-built-document")
+	} else {
+		d = c03Doc(c.keys, 1)
+	}
 	dt := gen.JSON(d)
 	v.Observe("doc", dt)
 	verr := s.Validate(json.New("d", dt))
